@@ -9,7 +9,7 @@ ID = "C13"
 LEVEL = "exploration"
 TECHNIQUE = "reference-model monitor: brute-force CFG membership / parse-tree oracle and textbook FIRST + canonical LR(1) (R6) vs the real table generator and parser driver on random small grammars with all short inputs, under ASan+UBSan"
 FLAVOURS = [("asan", "generated")]
-RULE = ("random context-free grammars (<= 3 non-terminals, <= 3 terminals, <= 9 rules, right-hand sides <= 3 symbols, with epsilon rules, left/right "
+RULE = ("random context-free grammars (<= 3 non-terminals, <= 3 terminals, <= 9 rules, right-hand sides <= 5 symbols, with epsilon rules, left/right "
         "recursion, useless and rule-less symbols), each in full or prefix mode, with ALL end-marked inputs up to length L (quick 5, thorough 7) over "
         "the terminals up to the largest index used; conflict-free grammar: accept iff the input (prefix mode: some prefix) is in the language and "
         "the returned value is the fold of the unique tree (children last-first); ambiguous grammar (>= 2 trees for some input or a derivation "
@@ -31,7 +31,7 @@ def gen(rnd):
     rules = []
     for a in range(nnt):
         for _ in range(rnd.randint(1, 3)):
-            k = rnd.choice([0, 1, 1, 2, 2, 3])
+            k = rnd.choice([0, 1, 1, 2, 2, 3, 3, 4, 5])
             rhs = tuple((("t", rnd.randint(1, nt)) if rnd.random() < 0.55 else ("n", rnd.randrange(nnt))) for _ in range(k))
             if (a, rhs) not in rules:
                 rules.append((a, rhs))
